@@ -74,6 +74,9 @@ class St(object):
         self.C = ghost['C']
         self.A = ghost.get('A') or ZSet(NAME, z3.K(NAME, z3.BoolVal(False)), 'A')
         self.ticks = ghost.get('ticks', z3.IntVal(0))
+        zi, zb = z3.K(NAME, z3.IntVal(0)), z3.K(OBJ, z3.K(NAME, z3.BoolVal(False)))
+        self.ev, self.wt, self.sl = ghost.get('ev', zi), ghost.get('wt', zi), ghost.get('sl', zi)
+        self.wtdF, self.wtdI, self.ldd = ghost.get('wtdF', zb), ghost.get('wtdI', zb), ghost.get('ldd', zb)
         self.Rk = ghost.get('Rk')
         self.wd, self.wk = ghost['wd'], ghost['wk']
         self.R = ghost.get('R') or ZBag(OBJ, name='R')
@@ -94,6 +97,17 @@ def located(s, l):
     if s.inflight is not None:
         alts.append(l == s.inflight)
     return z3.Or(*alts)
+
+
+def tokens(s, l):
+    """How many places hold line l: queue, released list under iteration, the wait it is registered for (field / input),
+    the attempt in flight, and "done" (has a value / recorded unimplemented)."""
+    f = fld(s, l)
+    one = lambda b: z3.If(b, 1, 0)
+    t = s.Q.cnt[f] + s.R.cnt[f] + s.UF.cnt[s.wd[l]][f] + s.UI.cnt[s.wk[l]][f] + one(s.V.has[l]) + s.N.cnt[l]
+    if s.inflight is not None:
+        t = t + one(l == s.inflight)
+    return t
 
 
 def known(s, f):
@@ -122,6 +136,20 @@ def invariant(s):
         ('tracker-lists-nonempty-F', z3.ForAll([Dn], z3.Implies(s.UF.has[Dn], s.UF.ln[Dn] >= 1))),
         ('tracker-lists-nonempty-I', z3.ForAll([Dn], z3.Implies(s.UI.has[Dn], s.UI.ln[Dn] >= 1))),
         ('every-answer-given-is-stored', z3.ForAll([L], z3.Implies(s.A.mem[L], s.C.mem[L]))),
+        # C06 accounting: a line waits on at most one thing, registered once, and that thing is the one its ghost names
+        ('a-field-wait-is-the-registered-one', z3.ForAll([Dn, Fo], z3.Implies(s.UF.cnt[Dn][Fo] > 0, z3.And(s.UF.cnt[Dn][Fo] == 1, s.wd[name_of(Fo)] == Dn)))),
+        ('an-input-wait-is-the-registered-one', z3.ForAll([Dn, Fo], z3.Implies(s.UI.cnt[Dn][Fo] > 0, z3.And(s.UI.cnt[Dn][Fo] == 1, s.wk[name_of(Fo)] == Dn)))),
+        ('values-belong-to-scheduled-lines', z3.ForAll([L], z3.Implies(s.V.has[L], s.S.mem[L]))),
+        ('unimplemented-lines-are-scheduled', z3.ForAll([L], z3.Implies(s.N.cnt[L] > 0, s.S.mem[L]))),
+        # ... and every scheduled line is in exactly one place (never queued twice, never re-queued once done)
+        ('exactly-one-place-per-line', z3.ForAll([L], z3.Implies(s.S.mem[L], tokens(s, L) == 1))),
+        # work accounting: every evaluation of a line ended in a value / not-implemented, in a newly registered wait, or in the
+        # loading of an input declaration (the evaluation in flight is counted when the attempt returns)
+        ('evaluations-are-accounted-for', z3.ForAll([L], s.ev[L] == s.wt[L] + s.sl[L] + z3.If(s.V.has[L], 1, 0) + s.N.cnt[L])),
+        # the things a line waited for are distinct: a recorded wait is either still registered or its dependency has been met for good
+        ('a-past-wait-on-a-line-is-over-for-good', z3.ForAll([Fo, Dn], z3.Implies(s.wtdF[Fo][Dn], z3.Or(s.V.has[Dn], s.UF.cnt[Dn][Fo] > 0)))),
+        ('a-past-wait-on-an-input-is-over-for-good', z3.ForAll([Fo, Dn], z3.Implies(s.wtdI[Fo][Dn], z3.Or(s.C.mem[Dn], s.UI.cnt[Dn][Fo] > 0)))),
+        ('a-loaded-declaration-stays-loaded', z3.ForAll([Fo, Dn], z3.Implies(s.ldd[Fo][Dn], s.IM.has[Dn]))),
     ]
 
 
@@ -134,6 +162,7 @@ def grows(s0, s, attempted=None):
         ('inputs-only-grow', z3.ForAll([L], z3.Implies(s0.C.mem[L], s.C.mem[L]))),
         ('answers-given-only-grow', z3.ForAll([L], z3.Implies(s0.A.mem[L], s.A.mem[L]))),
         ('work-counter-only-grows', s.ticks >= s0.ticks),
+        ('per-line-counters-only-grow', z3.ForAll([L], z3.And(s.ev[L] >= s0.ev[L], s.wt[L] >= s0.wt[L], s.sl[L] >= s0.sl[L]))),
         ('scheduled-only-grows', z3.ForAll([L], z3.Implies(s0.S.mem[L], s.S.mem[L]))),
         ('field-map-only-grows', z3.ForAll([L], z3.Implies(s0.FM.has[L], z3.And(s.FM.has[L], s.FM.val[L] == s0.FM.val[L])))),
         ('input-map-only-grows', z3.ForAll([L], z3.Implies(s0.IM.has[L], s.IM.has[L]))),
@@ -183,12 +212,21 @@ class SolverSpec(corevc.Spec):
         it.ghost['A'] = ZSet.havoc(NAME, 'A')      # ghost: inputs the user has answered (prompt returned supplied with a valid string)
         # ghost work counter (C06): +1 per evaluation of a line, per question asked, per drain of a non-empty "met" list
         it.ghost['ticks'] = fresh('ticks', z3.IntSort())
+        self.fresh_counters(it)
         it.ghost['wd'] = fresh('wd', z3.ArraySort(NAME, NAME))
         it.ghost['wk'] = fresh('wk', z3.ArraySort(NAME, NAME))
         it.ghost['R'] = ZBag(OBJ, name='R')
         it.ghost['inflight'] = None
         it.run.fact(z3.ForAll([L], z3.Implies(REQ_LINE(L), DECL_LINE(L))))
         return me
+
+    def fresh_counters(self, it):
+        """Per-line ghost counters (C06): evaluations, waits registered, declarations loaded on the line's behalf; and the
+        relations "line L has waited on field / input d", "a declaration of input k was loaded for line L"."""
+        for nm in ('ev', 'wt', 'sl'):
+            it.ghost[nm] = fresh(nm, z3.ArraySort(NAME, z3.IntSort()))
+        for nm in ('wtdF', 'wtdI', 'ldd'):
+            it.ghost[nm] = fresh(nm, z3.ArraySort(OBJ, z3.ArraySort(NAME, z3.BoolSort())))     # keyed by the line's Field object
 
     def st(self, it, me):
         return St(me, it.ghost)
@@ -221,6 +259,7 @@ class SolverSpec(corevc.Spec):
         it.ghost['C'] = ZSet.havoc(NAME, 'C')
         it.ghost['A'] = ZSet.havoc(NAME, 'A')
         it.ghost['ticks'] = fresh('ticks', z3.IntSort())
+        self.fresh_counters(it)
         it.ghost['wd'] = fresh('wd', z3.ArraySort(NAME, NAME))
         it.ghost['wk'] = fresh('wk', z3.ArraySort(NAME, NAME))
         # frame facts relative to the state at loop entry (everything only grows)
@@ -266,6 +305,9 @@ class SolverSpec(corevc.Spec):
         r = it.run
         it.ghost['evaluations'] = it.ghost.get('evaluations', 0) + 1
         it.ghost['ticks'] = it.ghost.get('ticks', z3.IntVal(0)) + 1
+        ln = name_of(fobj.ref)
+        if 'ev' in it.ghost:
+            it.ghost['ev'] = z3.Store(it.ghost['ev'], ln, it.ghost['ev'][ln] + 1)
         acc = it.ghost.get('oracle_args')
         ok_acc = False
         if acc is not None and len(acc) == 2:
@@ -291,6 +333,11 @@ class SolverSpec(corevc.Spec):
             k = fresh('key', NAME)
             r.fact(z3.Not(s.IM.has[k]))
             it.ghost['oracle_key'] = k
+            if 'sl' in it.ghost:
+                # a declaration is loaded on behalf of this line at most once per undeclared input
+                it.oblige(f'{it.site(node)}/eval/a-declaration-is-loaded-for-a-line-once-per-input', z3.Not(s.ldd[fobj.ref][k]))
+                it.ghost['sl'] = z3.Store(it.ghost['sl'], ln, it.ghost['sl'][ln] + 1)
+                it.ghost['ldd'] = z3.Store(it.ghost['ldd'], fobj.ref, z3.Store(it.ghost['ldd'][fobj.ref], k, z3.BoolVal(True)))
             raise Raised(inputs.MissingInputSpecification(wrap(k)), node)
         if r.branch(fresh('line_invalid_input', z3.BoolSort()), where=f'oracle-inv@{node.lineno}'):
             # InputStore.__getitem__ (C11): a provided text the validator rejects is reported as InvalidInput, never turned into a value
@@ -392,6 +439,12 @@ def _spec_methods():
                 d, x = to_term(args[0]), to_term(args[1])
                 key = 'wd' if f.__self__ is me.attrs['_field_dependencies'] else 'wk'
                 it.ghost[key] = z3.Store(it.ghost[key], name_of(x), d)   # ghost: the line now waits on d
+                if 'wt' in it.ghost:
+                    lx = name_of(x)
+                    rel = 'wtdF' if key == 'wd' else 'wtdI'
+                    it.oblige(f'{it.site(node)}/add_unmet/a-line-waits-for-a-thing-at-most-once', z3.Not(it.ghost[rel][x][d]))
+                    it.ghost['wt'] = z3.Store(it.ghost['wt'], lx, it.ghost['wt'][lx] + 1)
+                    it.ghost[rel] = z3.Store(it.ghost[rel], x, z3.Store(it.ghost[rel][x], d, z3.BoolVal(True)))
                 regs = it.ghost.setdefault('registrations', [])
                 regs.append((key, d, x))
                 return r
@@ -431,6 +484,11 @@ def _spec_methods():
                                                                        z3.ForAll([x], U.cnt[d][x] == U0.cnt[d][x])))))
         it.run.fact(z3.ForAll([d, x], YP[d][x] <= Y.cnt[x]))
         it.run.fact(z3.ForAll([x], z3.Implies(Y.cnt[x] > 0, YP[src[x]][x] > 0)))
+        # exactness (tracker post "handed-out-exactly-when-one-key"), instantiated at the key the waiter's ghost names
+        me = it.ghost['self']
+        wmap = it.ghost['wd'] if tracker is me.attrs['_field_dependencies'] else it.ghost['wk']
+        d2 = z3.Const('_d2', NAME)
+        it.run.fact(z3.ForAll([x], z3.Implies(z3.ForAll([d2], z3.Implies(d2 != wmap[name_of(x)], YP[d2][x] == 0)), Y.cnt[x] == YP[wmap[name_of(x)]][x])))
         tracker.attrs['_unmet'], tracker.attrs['_met'] = U, M
         it.ghost['ticks'] = it.ghost.get('ticks', z3.IntVal(0)) + z3.If(M0.size > 0, 1, 0)     # emptying a non-empty "met" list is work
         return Y
